@@ -420,9 +420,14 @@ impl SignedRepository {
 
 impl TargetsWalker for SignedRepository {
     fn targets(&self) -> HashMap<TargetName, &Target> {
-        // Since there is access to `targets.json` metadata, all targets
-        // can be found using `targets_map()`
-        self.targets.signed.signed.targets_map()
+        // Since there is access to `targets.json` metadata, all targets can be found. A name
+        // listed by more than one role maps to the entry a client is served from
+        // (`find_target`), not to the one that happens to be listed last.
+        let targets = &self.targets.signed.signed;
+        targets
+            .targets_iter()
+            .filter_map(|(name, _)| Some((name.clone(), targets.find_target(name).ok()?)))
+            .collect()
     }
 
     fn consistent_snapshot(&self) -> bool {
